@@ -3,6 +3,7 @@ package checks
 import (
 	"fmt"
 	"math/rand"
+	"strings"
 
 	"verif/engine/run"
 )
@@ -126,6 +127,20 @@ func init() {
 		Rule:      "one instance = one policy shape through LoadFilter with symbolic Flag.",
 		Jobs:      loadJobs("C10"),
 		Owns:      func(tag string) bool { return tagProp(tag) == "C10" || tag == "C09.nil_attached" },
+		Extra: func(c *Ctx) ([]Finding, error) {
+			// The kernel-side assumption (a TSYNC load that returned nil covers every thread), SAMPLED on the
+			// running kernel; not a deciding step and not a substitute for the schedule quantifier.
+			tab, err := c.ArchTable("X86_64")
+			if err != nil {
+				return nil, err
+			}
+			summary, _, _ := kernelValidationLines(c, rand.New(rand.NewSource(c.Seed)), tab, "tsync-only")
+			c.Ev.Extra["kernel_assumption_sampled"] = summary
+			if strings.Contains(summary, "unfiltered=") && !tsyncClean(summary) {
+				return []Finding{{Tag: "C10.tsync_sampled", What: "after LoadFilter(TSYNC) returned nil a thread was found without the filter on the running kernel: " + summary}}, nil
+			}
+			return nil, nil
+		},
 		NeedCovers: []string{"cover.tsync_refused", "cover.attached"},
 		Bounds:    map[string]interface{}{"flags": "all 2^32 values of Filter.Flag", "threads": "not explored: the library's contribution is the flag word and the handling of the kernel's answer"},
 		Outside:   []string{"that the kernel applies a TSYNC filter atomically to running, blocked and nascent threads (kernel code; assumed from seccomp(2))", "interleavings with N other OS threads"},
@@ -141,4 +156,19 @@ func init() {
 		Outside:   []string{"preemption inside a syscall (kernel)", "the Go scheduler itself: goroutine schedules are represented by their only observable effect here, the thread each syscall runs on"},
 		Assumptions: loadStubs, Trusted: []string{"kernel contract stub incl. the per-thread no_new_privs ghost bit", "gosym engine; native replay", "z3/cvc5"},
 	})
+}
+
+// tsyncClean: every sampled run reports unfiltered=0 and late=true.
+func tsyncClean(summary string) bool {
+	i := strings.Index(summary, "thread-sync assumption sampled")
+	if i < 0 {
+		return true
+	}
+	rest := summary[i:]
+	for _, part := range strings.Split(rest, ";") {
+		if strings.Contains(part, "unfiltered=") && (!strings.Contains(part, "unfiltered=0 ") || !strings.Contains(part, "late=true")) {
+			return false
+		}
+	}
+	return true
 }
